@@ -13,7 +13,8 @@ EXTENDS Families, BoardImpl, IOUtils, TLC
 Stride == IF "STRIDE" \in DOMAIN IOEnv THEN atoi(IOEnv.STRIDE) ELSE 1
 Seed == IF "SEED" \in DOMAIN IOEnv THEN atoi(IOEnv.SEED) ELSE 1
 EpFix == IF "EPFIX" \in DOMAIN IOEnv THEN IOEnv.EPFIX = "1" ELSE TRUE
-Wanted == {f \in FamilyNames \ {"RAW"} : ("FAM_" \o f) \in DOMAIN IOEnv}
+\* (the RAW family - disturbed raw boards, valid or not - is checked against the validator model only)
+Wanted == {f \in FamilyNames : ("FAM_" \o f) \in DOMAIN IOEnv}
 Fams == IF Wanted = {} THEN FamilyNames \ {"RAW"} ELSE Wanted
 Primes == <<7919, 104, 1297, 15485, 3245, 4997, 6786, 8602>>
 RECURSIVE HashFrom(_, _)
@@ -26,15 +27,18 @@ PickCoarse == /\ stage = 0
               /\ \E f \in Fams : \E x \in Coarse(f) : fam' = f /\ cx' = x /\ stage' = 1 /\ out' = <<>>
 PickFine == /\ stage = 1
             /\ \E y \in Fine(fam, cx) : LET p == Build(fam, cx, y) IN
-                 /\ Keep(y) /\ IsValid(p) /\ out' = p /\ stage' = 2 /\ UNCHANGED <<fam, cx>>
+                 /\ Keep(y) /\ (fam = "RAW" \/ IsValid(p)) /\ out' = p /\ stage' = 2 /\ UNCHANGED <<fam, cx>>
 Next == PickCoarse \/ PickFine
 
 NullMove == <<0, 0, 0, 0>>
 Inv_FamRefines ==
   stage = 2 =>
+    IF fam = "RAW" THEN Obl_TryFrom(out) ELSE
     LET b == Scratch(out) IN
     /\ Obl_Legal(b, EpFix)
     /\ Obl_SemiValidate(b)
+    /\ Obl_Outcome(b, EpFix)
+    /\ Obl_TryFrom(out)
     /\ \A m \in PseudoLegal(out) : Obl_Make(b, m) /\ Obl_Undo(b, m)
     /\ Obl_Undo(b, NullMove)
 =============================================================================
